@@ -391,6 +391,9 @@ func checkC15(ck *Check) {
 					why = append(why, "the search loop can be left early without a key match")
 				}
 				// the update must not be reachable through this exit
+				if !reachesBlock(e[1], us.upd.Block()) {
+					continue // the exit leaves the function (return on a match)
+				}
 				if sat, _ := Satisfiable(And(ctx.PC(us.upd), ctx.edgePC(e[0], e[1]))); sat {
 					okv = false
 					why = append(why, "Update is reachable after a taint with the escalator key was found (re-stamp)")
@@ -1869,9 +1872,49 @@ func (ck *Check) writeConfirmed(rule string, fn *ssa.Function) {
 		ck.entails(rule, key+"/read", r, pc, getOK, "a nil error is returned only if the Get of this call succeeded")
 		if after[b] || b == upd.Block() {
 			ck.entails(rule, key+"/written", r, pc, updOK, "after the Update, a nil error is returned only if the Update succeeded")
+		} else if fn == ck.A.AddTaint {
+			// success without a write: only when the fetched node already carries the taint — the
+			// taint loop counts every nil error as one node tainted
+			if present := ck.alreadyPresent(ctx, fn); present != nil {
+				ck.entails(rule, key+"/present", r, pc, present, "without an Update, a nil error is returned only if the search found the escalator taint on the fetched node")
+			} else {
+				ck.fail(rule, key+"/present", ck.P.instrPos(r), funcID(fn), "without an Update, a nil error is returned only if the search found the escalator taint on the fetched node", "no search for the taint found", "a node counts as tainted although nothing was written and nothing was there")
+			}
 		}
 	}
 	ck.floor(rule, "success returns of "+fn.Name(), n, 1)
+}
+
+// alreadyPresent: the condition under which the taint writer's search found a taint with the
+// escalator key — the verdict of a search function, or having left the range over some
+// x.Spec.Taints through an exit other than exhaustion.
+func (ck *Check) alreadyPresent(ctx *Ctx, fn *ssa.Function) *Formula {
+	keyLit := fmt.Sprintf("%q", "atlassian.com/escalator")
+	if call, _, found := ck.taintSearchCall(ctx, fn, keyLit); call != nil && found != nil {
+		return found
+	}
+	var out *Formula
+	for _, l := range loopsOf(fn) {
+		if l.Over == nil {
+			continue
+		}
+		ot := ctx.Term(l.Over)
+		if !(ot.Kind == "field" && ot.Name == "Taints" && len(ot.Args) == 1 && ot.Args[0].Kind == "field" && ot.Args[0].Name == "Spec") {
+			continue
+		}
+		for _, e := range l.Exits {
+			if l.exhaustionExit(e[0]) {
+				continue
+			}
+			f := ctx.edgePC(e[0], e[1])
+			if out == nil {
+				out = f
+			} else {
+				out = Or(out, f)
+			}
+		}
+	}
+	return out
 }
 
 // errorConstructor: v is the result of fmt.Errorf / errors.New / pkg/errors constructors (possibly
